@@ -237,41 +237,25 @@ def op_unjson(j):
 
 
 # ------------------------------------------------------------------ source facts
-def source_dedup():
-    """Does `PubSubManager::publish` still de-duplicate receivers per connection?
-    (the model switch `dedup` of Ferrous.PubSub.publish follows the source)"""
-    try:
-        src = open(os.path.join(REPO, "src", "pubsub.rs"), encoding="utf-8", errors="replace").read()
-    except OSError as e:
-        raise InternalError("cannot read pubsub.rs: %s" % e)
-    src = re.sub(r"//[^\n]*", "", src)
-    m = re.search(r"\bpub\s+fn\s+publish\b[^{]*\{", src)
-    if not m:
-        return None
-    i, depth = m.end(), 1
-    while i < len(src) and depth:
-        depth += {"{": 1, "}": -1}.get(src[i], 0)
-        i += 1
-    body = src[m.end():i]
-    return bool(re.search(r"seen_connections\s*\.\s*insert\s*\(", body))
+def source_facts():
+    """The switches of the model, read off the current sources with the translator's own
+    patterns (translator/pubsub_consts.py, which also writes lean/FerrousSpec/Gen/PubSub.lean):
+    dedup: does `PubSubManager::publish` still de-duplicate receivers per connection?
+    keeps_dead: does `Server::cleanup_connections` still skip closing connections that hold subscriptions?
+    (None = the function was not recognised)"""
+    tdir = os.path.join(VERIF, "translator")
+    if tdir not in sys.path:
+        sys.path.insert(0, tdir)
+    import extract
+    import pubsub_consts
 
-
-def source_keeps_dead_subscribers():
-    """Does `Server::cleanup_connections` still skip closing connections that hold subscriptions?
-    (then a subscriber that went away keeps being counted by PUBLISH until two writes to it failed)"""
-    try:
-        src = open(os.path.join(REPO, "src", "network", "server.rs"), encoding="utf-8", errors="replace").read()
-    except OSError as e:
-        raise InternalError("cannot read server.rs: %s" % e)
-    src = re.sub(r"//[^\n]*", "", src)
-    m = re.search(r"\bfn\s+cleanup_connections\b[^{]*\{", src)
-    if not m:
-        return None
-    i, depth = m.end(), 1
-    while i < len(src) and depth:
-        depth += {"{": 1, "}": -1}.get(src[i], 0)
-        i += 1
-    return bool(re.search(r"pubsub\s*\.\s*is_subscribed\s*\(", src[m.end():i]))
+    def src(rel):
+        try:
+            with open(os.path.join(REPO, "src", rel), encoding="utf-8", errors="replace") as f:
+                return f.read()
+        except OSError as e:
+            raise InternalError("cannot read %s: %s" % (rel, e))
+    return pubsub_consts.facts(src, extract.strip_comments, extract.fn_body)
 
 
 def load_findings():
@@ -898,8 +882,8 @@ def main(tier, seed):
     ok, log, errs = proof_phase(rep, families=["pubsub"])
     build_harness("pubsub")
     build_server()
-    dedup = source_dedup()
-    keeps_dead = source_keeps_dead_subscribers()
+    facts = source_facts()
+    dedup, keeps_dead = facts["dedup"], facts["keeps_dead"]
     rep.extra["source_dedup"] = dedup
     rep.extra["source_keeps_dead_subscribers"] = keeps_dead
     findings = load_findings()
@@ -935,7 +919,7 @@ def main(tier, seed):
             rep.violation("proof obligations of C14 no longer check", {"theorem_errors": errs[:10], "log_tail": log[-3000:]}, no_input=True)
         elif dedup is None:
             rep.violation("PubSubManager::publish not found in src/pubsub.rs: the model switch `dedup` cannot be tied to the source",
-                          {"correspondence": "source_dedup()"}, no_input=True)
+                          {"correspondence": "translator/pubsub_consts.py facts()"}, no_input=True)
         elif c.disagreements:
             d0 = c.disagreements[0]
             small = None
@@ -961,7 +945,7 @@ def replay(path):
     rep = Report("C14", "replay", obj.get("seed", 0))
     build_driver("pubsub")
     build_harness("pubsub")
-    dedup = source_dedup()
+    dedup = source_facts()["dedup"]
     c = C14(rep, True if dedup is None else dedup)
     try:
         if rp.get("ops") and isinstance(rp["ops"][0], list):
